@@ -157,7 +157,7 @@ class PermutationReciprocalTransformer(BaseReciprocalTransformer):
             self.knn_perm_ = self.knn_perm_.reshape((len(self.knn_perm_), 1))
             self.knn_.fit(self.knn_perm_)
         ind = self.knn_.kneighbors([[cl]], return_distance=False)
-        res = self.knn_perm_[ind, 0]
+        res = self.knn_perm_[ind[0, 0], 0]
         if self.knn_perm_.dtype in (numpy.float32, numpy.float64):
             return float(res)
         if self.knn_perm_.dtype in (numpy.int32, numpy.int64):
